@@ -75,6 +75,30 @@ CLAIMS = {
             "(FortranFormat's properties interpreted for the 4 forms); the replacement puts exactly two blanks at the sentinel; every "
             "replacement is gated by the enabling flag and precedes comment classification on both routes. Not decided: tree equality.",
             "DESIGN.md §4 C15"),
+    "C03": ("table extraction vs. standard oracle; specialisation of the binary-operator engine; regex obligations by exhaustive enumeration",
+            "Decides: the 12-level expression table extracted from the match methods equals F2003 R701-R723 (operator, operand classes, split "
+            "side, fall-through, Parenthesis under Primary); the binary engine specialised for right=True/False reaches a match only after the "
+            "rightmost/leftmost split and builds operands from their own sides; operator regexes match exactly their tokens and never inside "
+            "a longer operator (operator soup up to length 5/6); intrinsic dotted operators are excluded from defined ones (1 known finding: "
+            "no retry, F13); exponent literals are atomic (5544 literal/context pairs). Not decided: the parse of each individual string.",
+            "DESIGN.md §4 C03"),
+    "C14": ("registry exhaustiveness; head-pattern obligations per directive kind; shared class-list/typestate analyses",
+            "Decides: Cpp_*_Stmt classes == CPP_CLASS_NAMES; for the 14 directive kinds of the property the reader's '#' predicate and exactly "
+            "the expected class's head pattern accept the canonical samples; backslash continuation yields one CppDirective item before any "
+            "Fortran interpretation; the directive matcher is tried at every position and gives its peeked item back; directives before a "
+            "failed construct are restored; ';' splitting looks at the tokenised line only. Not decided: position equality for every insertion.",
+            "DESIGN.md §4 C14"),
+    "C16": ("oracle set comparison; shared scope typestate; dominance of the shadowing lookup over every intrinsic match; must-pass-through for registration",
+            "Decides: scoping classes == the property's list and each opens a block-engine call site; enter/exit pairing on all paths; lookup "
+            "consults own symbols, used modules, ancestors only; an intrinsic reference is produced only after an unsuccessful lookup of the "
+            "name as written in the current scope; matched declarations/USEs are always recorded; table keys are case-normalised; create() "
+            "clears the tables. Not decided: table contents for every program; cache interactions during backtracking.", "DESIGN.md §4 C16"),
+    "C17": ("registry inclusion over both linked grammars (alt + use edges); override-reachability triage; delegation-first dominance; finite regex-language inclusion",
+            "Decides: every rule/alternative of the linked 2003 registry (550 rules) is reachable in the same order in the 2008 registry; engine "
+            "identity tests name the 2008 overrides; by-name constructions of overridden classes are covered; no 2008 class/keyword reachable "
+            "from the 2003 grammar; each 2008-only construct reachable from Program in 2008; reachable matchers resolve their names; 2008 "
+            "matchers that delegate try the 2003 form first, re-implementing ones include the 2003 keyword language; no shared mutable class "
+            "state; the factory always relinks. Not decided: text equality of the two parsers' output.", "DESIGN.md §4 C17"),
 }
 
 NA = {
